@@ -87,11 +87,13 @@ pub struct SrvCfg {
     pub password: Option<Vec<u8>>, // password the server accepts (None: any)
     pub auth: String,              // ok | ack | eof | garbage   (scripted verdict for a password line)
     pub pic: Picture,
+    /// picture of URIs ending in "_alt.flac"
+    pub pic2: Picture,
 }
 
 impl Default for SrvCfg {
     fn default() -> Self {
-        SrvCfg { password: None, auth: "ok".into(), pic: Picture { limit: 8192, ..Default::default() } }
+        SrvCfg { password: None, auth: "ok".into(), pic: Picture { limit: 8192, ..Default::default() }, pic2: Picture { limit: 8192, ..Default::default() } }
     }
 }
 
@@ -292,7 +294,8 @@ impl Sh {
             b"readpicture" | b"albumart" => {
                 let embedded = name == b"readpicture";
                 let off: usize = words.get(2).and_then(|w| std::str::from_utf8(w).ok()).and_then(|s| s.parse().ok()).unwrap_or(0);
-                let pic = self.cfg.pic.clone();
+                let alt = words.get(1).map(|u| u.ends_with(b"_alt.flac")).unwrap_or(false);
+                let pic = if alt { self.cfg.pic2.clone() } else { self.cfg.pic.clone() };
                 let (src, ack) = if embedded { (pic.embedded, pic.embedded_ack) } else { (pic.file, pic.file_ack) };
                 if ack != 0 {
                     return Err(vec![Line::ack(ack, idx, if ack == 5 { b"" } else { name }, b"scripted error")]);
